@@ -213,6 +213,18 @@ def gen_wire_cases(rng, tier):
         c.expect = good
         c.line = re.sub(r" (\d+) w (\d+) (\d+)$", " %d w \\2 \\3" % len(good), c.line)
         cases.append(c)
+    # (2c) ipc: a frame whose type octet is not 1 ends the connection; what was complete before it is delivered, nothing after
+    for i in range(6 if q else 60):
+        role = rng.choice("ld")
+        msgs = [rbytes(rng, rng.choice([0, 1, 5, 100])) for _ in range(rng.choice([1, 2, 3]))]
+        k = rng.randrange(len(msgs))
+        c = rx_case("rx-ipc-badtype", "ipc", role, "pair0", msgs, [rng.randrange(1, 10)], flags="w")
+        st = b"".join((frame("ipc", b"", m) if j != k else bytes([rng.choice([0, 2, 255])]) + frame("ipc", b"", m)[1:])
+                      for j, m in enumerate(msgs))
+        t = c.line.split()
+        t[7], t[9] = hx(st), str(k)
+        c.line, c.expect = " ".join(t), msgs[:k]
+        cases.append(c)
     # (3) raw headers re-parsed by the receiving protocol (raw REP: backtrace words up to the request id)
     for i in range(20 if q else 300):
         tran, role = rng.choice(TRANS)
@@ -509,8 +521,14 @@ def run(tier, seed, replay=None):
     def lap(what):
         if os.environ.get("NNGV_TIMING"):
             print("  [%6.1fs] %s" % (time.time() - t_start, what))
-    ok, msg = gen_consts("c01")
-    cb = coq_build("Properties_C01")
+    # coq/Gen/Consts.v is shared with concurrently running checks (possibly of another tree): build, then make sure the
+    # constants the proofs were checked against are still the ones of the tree under test; otherwise once more
+    for _attempt in range(3):
+        ok, msg = gen_consts("c01")
+        cb = coq_build("Properties_C01")
+        rc, o, e = sh([sys.executable, os.path.join(VERIF, "tools", "gen_consts.py")], timeout=120)
+        if "Consts.v updated" not in o:
+            break
     gate = coq_gate()
     rep.proof_cov(cb, "make -C coq Props/Properties_C01.vo && coqc Props/Properties_C01.v (Print Assumptions) ; grep gate")
     proof_ok = ok and cb["ok"] and not gate
